@@ -44,6 +44,11 @@ def cases(tier, seed):
     for w in wf:
         for i in range(reps if w not in ("pipeline", "wwtl") else (1 if tier == "quick" else 3)):
             out.append(dict(t="workflow", wf=w, par=R.choice([1, 2]), seed=R.randrange(1 << 30)))
+    for w_ in ("study_png", "study_fits", "api_study", "study_jpg"):
+        for i in range(1 if tier == "quick" else 8):
+            out.append(dict(t="workflow", wf=w_, par=1, seed=R.randrange(1 << 30), prior_run=True))
+    for i in range(4 if tier == "quick" else 24):
+        out.append(dict(t="workflow", wf="api_study", par=1, seed=4 * R.randrange(1 << 20) + [4, 5, 6, 7][i % 4] , small=True))
     seqs = [["fresh", "repeat"], ["fresh", "override", "repeat"], ["fresh", "repeat", "repeat"], ["fresh", "repeat", "override"],
             ["interrupted", "override_smaller", "repeat"], ["interrupted", "override_smaller"],
             ["fresh", "repeat", "override_other", "repeat"], ["fresh", "absolutize", "repeat"], ["fresh", "repeat", "absolutize", "repeat", "override", "repeat"],
@@ -199,6 +204,8 @@ def run_workflow(spec, workdir):
     out = os.path.join(workdir, "out")
     par = spec["par"]
     w, h = R.choice([300, 513, 700, 1100]), R.choice([200, 300, 520])
+    if spec.get("small"):
+        w, h = R.choice([200, 256, 120]), R.choice([150, 256, 90])  # a single-tile image: depth 0
     casc = True
 
     def go():
@@ -325,11 +332,23 @@ def run_workflow(spec, workdir):
     evlog.open_log(log)
     install_write_recorder()
     instr_mp.install("natural", spec["seed"])
-    if par > 1 and wf in ("allsky", "multi_tan", "tile_fits_tan", "tile_fits_wcs", "tile_fits_toast"):
-        # the workflow forks workers itself; run it in this process (time-outs dilated) so that `out` is known afterwards
+    if spec.get("prior_run") and wf in ("study_png", "study_jpg", "study_fits", "api_study"):
+        # the output directory already holds the (shallower) pyramid and the index_rel.wtml of an EARLIER, smaller image
+        w_, h_ = w, h
+        w, h = 200, 150
         go()
-    else:
-        go()
+        for fn_ in ("in.png", "in.jpg", "in.fits"):
+            if os.path.exists(os.path.join(workdir, fn_)):
+                os.unlink(os.path.join(workdir, fn_))
+        w, h = max(w_, 513), max(h_, 300)
+        # (the earlier run's tiles are cleared away; its index_rel.wtml and other metadata stay where they are)
+        for root_, _d, fs_ in os.walk(out):
+            for f_ in fs_:
+                if f_.rsplit(".", 1)[-1] in ("png", "jpg", "fits", "npy") and ("_" in f_ or f_.startswith("L")) and not f_.startswith("thumb"):
+                    os.unlink(os.path.join(root_, f_))
+        evlog.open_log(log)  # only the second run's writes are compared with the files
+        install_write_recorder()
+    go()
     probs = []
     recs = evlog.read(log)
     n1, nt1 = verify_outdir(out, recs, probs)
